@@ -69,6 +69,9 @@ func (s *Sink) Reset(kv ...any) { s.Emit("drv", "reset", kv...) }
 func (s *Sink) Count(ev string) int {
 	s.mu.Lock()
 	defer s.mu.Unlock()
+	if ev == "*" {
+		return int(s.N)
+	}
 	return s.Counts[ev]
 }
 
